@@ -23,6 +23,8 @@ def enumerate_cases(tier, rng):
     if tier == "quick":
         rng.shuffle(base)
         base = base[:110]
+    # always present: pessimistic transactions whose primary sits in the 2nd+ batch of its region (small batch limit)
+    base += [(sh, mode, True) for sh in txnlab.late_primary_shapes() for mode in ("2pc", "async", "1pc")]
     return base
 
 
